@@ -63,6 +63,18 @@ func ToV1(v val.V) *v1ddb.AttributeValue {
 			out = append(out, append(make([]byte, 0, len(m)), m...))
 		}
 		return &v1ddb.AttributeValue{BS: out}
+	case val.KInvalid:
+		// values the SDK types can express although they are no DynamoDB values (val.Invalid("nil") ...)
+		switch v.Str {
+		case "nil":
+			return nil
+		case "two-types":
+			s, n := "x", "1"
+			return &v1ddb.AttributeValue{S: &s, N: &n}
+		case "null-false":
+			b := false
+			return &v1ddb.AttributeValue{NULL: &b}
+		}
 	}
 	return &v1ddb.AttributeValue{}
 }
@@ -211,6 +223,10 @@ func ToV2(v val.V) v2types.AttributeValue {
 			out = append(out, append(make([]byte, 0, len(m)), m...))
 		}
 		return &v2types.AttributeValueMemberBS{Value: out}
+	case val.KInvalid:
+		if v.Str == "null-false" {
+			return &v2types.AttributeValueMemberNULL{Value: false}
+		}
 	}
 	return nil
 }
